@@ -2,4 +2,5 @@ pub mod swiftness_air {
 pub mod trace {
 //@include air/trace_config.rs
 } // mod trace
+//@include air/domains.rs
 } // mod swiftness_air
